@@ -139,6 +139,33 @@ pub fn drive_c12(a: &Args, out: &mut Out) {
         let ops = similar::capture_diff_slices(similar::Algorithm::Myers, &x, &y);
         emit_group(&ops, rng.below(5), out);
     }
+    // the other entry points of grouping: Capture::into_grouped_ops and TextDiff::grouped_ops
+    for i in 0..nrand / 10 {
+        let (x, y) = gen::random_pair(&mut rng, 30);
+        let n = rng.below(5);
+        let case = out.next_case();
+        let r = rec::guarded(|| {
+            if i % 2 == 0 {
+                let mut d = Replace::new(Capture::new());
+                similar::algorithms::diff_slices(similar::Algorithm::Myers, &mut d, &x, &y).unwrap();
+                let cap = d.into_inner();
+                (cap.ops().to_vec(), cap.into_grouped_ops(n))
+            } else {
+                let xs: Vec<String> = x.iter().map(|v| format!("{}\n", v)).collect();
+                let ys: Vec<String> = y.iter().map(|v| format!("{}\n", v)).collect();
+                let xr: Vec<&str> = xs.iter().map(|s| s.as_str()).collect();
+                let yr: Vec<&str> = ys.iter().map(|s| s.as_str()).collect();
+                let diff = similar::TextDiff::from_slices(&xr, &yr);
+                (diff.ops().to_vec(), diff.grouped_ops(n))
+            }
+        });
+        match r {
+            Some((ops, groups)) => out.emit(&json!({"ev":"group","case":case,"ops":ops_json(&ops),"n":n,"panic":false,
+                "via": if i % 2 == 0 {"into_grouped_ops"} else {"grouped_ops"},
+                "groups": Value::Array(groups.iter().map(|g| ops_json(g)).collect())})),
+            None => out.emit(&json!({"ev":"group","case":case,"ops":[],"n":n,"panic":true,"groups":[]})),
+        }
+    }
 }
 
 // ------------------------------------------------------------------ C13
